@@ -13,7 +13,7 @@
 (*  - EmitState (an INVARIANT that is always TRUE) prints one JSON line    *)
 (*    per distinct state: its history and its candidate calls.             *)
 (***************************************************************************)
-EXTENDS PropsT, Json
+EXTENDS PropsC, Json
 
 CONSTANTS ScopeName, MaxDepth, Emit
 VARIABLES ir, hist
@@ -79,7 +79,7 @@ XfScope ==
       [init |-> XfInit, ops |-> {"b:child", "b:connect"},
        max |-> [N |-> 1, L |-> 3, D |-> 3, P |-> 5, C |-> 2, I |-> 5, Q |-> 6, W |-> 4],
        names |-> {"a", "b"}, vals |-> {}, pos |-> {NoPos}, createN |-> {0},
-       parents |-> {2, 3}, maxKids |-> 2, queries |-> {"xf"}, walk |-> FALSE]
+       parents |-> {2, 3}, maxKids |-> 2, queries |-> {"xf"}, walk |-> FALSE, lookupVals |-> {}]
 (* port-boundary scope: the hierarchy is fixed (top: mid instance m, leaf instance x; mid: leaf      *)
 (* instance l), mid has a two-bit bus port a and a port b and ONE inner wire, top has two wires;      *)
 (* only connections vary, so every way of tying inner nets to port bits and outer nets is reachable   *)
@@ -96,8 +96,28 @@ XfPortScope ==
        names |-> {"a"}, vals |-> {}, pos |-> {NoPos}, createN |-> {0},
        parents |-> {2, 3}, maxKids |-> 2, queries |-> {"xf"}, walk |-> FALSE]
 
+(* a netlist and its clone side by side: edits and transformations of either must not show in the other *)
+Cclone(kind, x) == [op |-> "clone", kind |-> kind, x |-> x]
+CloneEditInit == XfInit \o << Cchild(2, "a", 1), Cchild(3, "a", 2), Cchild(3, "b", 2),
+                              Cconnect(1, IPin(3)), Cconnect(1, OPin(2, 1)), Cconnect(3, IPin(5)),
+                              Cconnect(3, OPin(3, 3)), Cconnect(4, OPin(4, 3)),
+                              Csetitem("I", 2, "props", "v0"), Csetitem("I", 3, "props", "v0"),
+                              Csetitem("D", 2, "props", "v0"), Csetitem("P", 3, "props", "v0"),
+                              Cclone("N", 1) >>
+CloneEditScope ==
+      [init |-> CloneEditInit,
+       ops |-> {"remove:DI", "remove:DP", "remove:PQ", "remove:CW", "create:PQ", "create:DP", "connect",
+                "disconnect", "set_name:I", "set_name:D", "del_name:I", "unref", "create_child",
+                "props:I", "props:D", "props:P"},
+       max |-> [N |-> 2, L |-> 6, D |-> 6, P |-> 11, C |-> 4, I |-> 9, Q |-> 13, W |-> 8],
+       names |-> {"z"}, vals |-> {}, pos |-> {NoPos}, createN |-> {0},
+       queries |-> {"xf2"}, walk |-> FALSE]
+
 ScopeTable ==
-  [ xf |-> XfScope,
+  [ clone_edit |-> CloneEditScope,
+    clone |-> [XfScope EXCEPT !.queries = {"clone"}, !.names = {"a", U}, !.lookupVals = {"a", "leaf", "mid"},
+                              !.ops = @ \cup {"remove:LD", "props:I"}],
+    xf |-> XfScope,
     xf_port |-> XfPortScope,
     hier11 |-> HierScope({"C11"}, {}),
     hier12 |-> HierScope({"C12"}, {}),
@@ -161,6 +181,7 @@ ActionProps(pre, c, out, post) ==
     /\ C02_RepointKeeps(pre, c, out, post)
     /\ C14_RefusedUnchanged(pre, out, post)
     /\ C10_RefusalExact(pre, c, out)
+    /\ C07_Independent(pre, c, post)
 
 Queries == IF "queries" \in DOMAIN Scope THEN Scope.queries ELSE {}
 StepCands(s) == Cands(s, Scope) \cup (IF "parents" \in DOMAIN Scope THEN BuildCands(s, Scope) ELSE {})
@@ -169,11 +190,16 @@ QCands(s) ==
     \cup (IF "C12" \in Queries THEN QueryCandsC12(s) ELSE {})
     \cup (IF "hcheck" \in Queries THEN HCheckCands(s) ELSE {})
     \cup (IF "xf" \in Queries THEN XfCands(s) ELSE {})
+    \cup (IF "clone" \in Queries THEN CloneCands(s) ELSE {})
+    \cup (IF "xf2" \in Queries
+          THEN StepCands(s) \cup {[op |-> "uniquify", n |-> n] : n \in IdsN(s)}
+               \cup {[op |-> "seq", calls |-> << [op |-> "uniquify", n |-> n], [op |-> "flatten", n |-> n] >>] : n \in IdsN(s)}
+          ELSE {})
 
 Walk == "walk" \in DOMAIN Scope /\ Scope.walk
 NextCands(s) == IF Walk /\ "walkq" \in Queries THEN StepCands(s) \cup WalkQueryCands(s) ELSE StepCands(s)
 
-Init == ir = ApplySeq(Empty, Scope.init) /\ hist = <<>>
+Init == ir = ApplySeqX(Empty, Scope.init) /\ hist = <<>>
 Next == \E c \in NextCands(ir) :
           LET r == ApplyX(ir, c) IN
           /\ Assert(ActionProps(ir, c, r.out, r.s), <<"MODEL-VIOLATION action property", c>>)
@@ -201,6 +227,14 @@ Inv_C09_Model ==
     ("xf" \in Queries) =>
         LET u == Uniquify(ir, 1)  f == Flatten(u, 1) IN
         /\ C09_OnlyLeaves(f, 1) /\ C09_LeafBijection(u, f, 1) /\ C09_NetsPreserved(u, f, 1) /\ C09_WF(f)
+(* the clone MODEL of Clone.tla satisfies the C07 clauses for every element of every design *)
+Inv_C07_Model ==
+    ("clone" \in Queries) =>
+        \A c \in CloneCands(ir) :
+            LET r == ApplyX(ir, c)
+                cl == CloneClauses(ir, c, r.out, r.s, r.ret, [none |-> 0]) IN
+            \A j \in DOMAIN cl : IF cl[j][2] THEN TRUE ELSE PrintT(<<"MODEL-C07", cl[j][1], c>>) /\ FALSE
+Inv_CloneDefAgrees == ("clone" \in Queries) => \A d \in IdsD(ir) : CloneOf(ir, "D", d).s = CloneDef(ir, d)
 Inv_OracleSane      == (Queries \cap {"C11", "C12", "xf"} # {}) => OracleSane(ir)
 
 EmitState ==
